@@ -2,7 +2,7 @@
    Statements only; proofs in Proofs/C13Proof.v, Proofs/C13Run.v, Proofs/C13Fac.v. *)
 From Coq Require Import List ZArith QArith Bool Arith.
 From PV Require Import Model.Types Model.Sim Model.Example Proofs.Base Proofs.RunLemmas
-  Proofs.AllocInv Proofs.C13Proof Proofs.C13Run Proofs.C13Fac.
+  Proofs.AllocInv Proofs.C13Proof Proofs.C13Run Proofs.C13Fac Proofs.C13Cap.
 Import ListNotations.
 Open Scope nat_scope.
 
@@ -79,14 +79,26 @@ Print Assumptions C13_finished_assemblies_leave.
 
 (* (b) capacity in every snapshot, for flat products (no child components):
    the space taken at a workplace stays below capacity + 1e-8 (the code's
-   tolerance).  For nested products the bound on the top-most components
-   follows from C13_placement_conditions step by step and is searched. *)
+   tolerance); C13_capacity_nested below is the general statement. *)
 Theorem C13_capacity_flat : forall c, Forest c -> (forall k, (0 <= c_size c k)%Q) -> Flat c ->
   (forall p, (0 <= wp_cap c p)%Q) -> forall o s, o_init_state o = true ->
   Forall (fun ob : obs => forall p, (qsum (map (c_size c) (wpc (snd ob) p)) < wp_cap c p + tol_space)%Q)
          (snd (simulate c o s)).
 Proof. intros c HF Hs Hf Hc o s Hi. exact (capacity_all_runs c HF Hs o s Hf Hc Hi). Qed.
 Print Assumptions C13_capacity_flat.
+
+(* (b) capacity in every snapshot for NESTED products: the components listed
+   at a workplace that are not covered by another listed component's assembly
+   (the top-most placed ones) take less than capacity + 1e-8.  tree_trans says
+   that descendants of descendants are descendants (true whenever the depth of
+   the product does not exceed the number of components). *)
+Theorem C13_capacity_nested : forall c, Forest c ->
+  (forall k a y, In a (tree c k) -> In y (tree c a) -> In y (tree c k)) ->
+  (forall k, (0 <= c_size c k)%Q) -> (forall p, (0 <= wp_cap c p)%Q) ->
+  forall o s, o_init_state o = true ->
+  Forall (fun ob : obs => forall p, (space c (wpc (snd ob) p) < wp_cap c p + tol_space)%Q) (snd (simulate c o s)).
+Proof. intros c HF Ht Hs Hc o s Hi. exact (nested_capacity_all_runs c HF Ht Hs o s Hc Hi). Qed.
+Print Assumptions C13_capacity_nested.
 
 (* (f) in every snapshot a task only holds facilities of the workplace where
    its component is placed (t_comp lists back: the component of a task lists
